@@ -141,7 +141,11 @@ def classify(desc, okey, ikey):
 
 def taint(M, rec, rng, desc, pars, st):
     try:
-        case = CC.CompileCase(M, rng, desc, pars, st, (), {}, own_symbols=(rng.random() < 0.5))
+        # positivity options do not change who influences whom (a clamp at zero of the same quantity)
+        opts = CC.random_opts(rng, 0.35) if rng.random() < 0.5 else {}
+        if opts:
+            rec.count("taint_functions_with_positivity_options")
+        case = CC.CompileCase(M, rng, desc, pars, st, (), opts, own_symbols=(rng.random() < 0.5))
         F = case.compile(0, False)
     except Exception as e:
         rec.count("compile_failed")
